@@ -81,7 +81,7 @@ func kindFamily(kind string) string {
 		return "output"
 	case "status":
 		return "status"
-	case "close", "stall", "http-500", "http-403":
+	case "close", "stall", "http-500", "http-403", "http-403-empty", "http-502-empty":
 		return "transport"
 	}
 	return "job"
